@@ -7,6 +7,7 @@ import (
 	"bytes"
 	"context"
 	"crypto"
+	"crypto/x509"
 	"fmt"
 	"os"
 	"strings"
@@ -333,6 +334,15 @@ func evalCase(d caseDesc) ev.Result {
 				f := forge{signer: k, pss: pss && keys.IsRSA(kind)}
 				if a.Swap {
 					f.advKey = pubNode(d.Cfg, k, kind, 0)
+					if d.Cfg.Enc == "x5chain" && kind == d.Cfg.Kind() && a.Entry%2 == 1 {
+						// the advertised X5CHAIN starts with the signer's certificate and goes on with the
+						// genuine owner's chain: the key of a chain is its first certificate's only
+						typ, _ := d.Cfg.KeyType()
+						chain := append(append([]*x509.Certificate{}, keys.SelfSigned(k, "forged")...), deploy.ChainFor(kind, deploy.KeyOwner1)...)
+						if n, err := wire.PublicKeyNode(int64(typ), 2, k.Public(), chain); err == nil {
+							f.advKey = n
+						}
+					}
 				}
 				delivered = a.Signer != "owner"
 				return &deploy.Action{Body: forge61(p, f)}
@@ -729,6 +739,7 @@ func genAttack(t *rapid.T, chain int) attack {
 	case "resign61":
 		a.Signer = rapid.SampledFrom([]string{"stranger", "mfg", "earlier", "device", "otherkind"}).Draw(t, "signer")
 		a.Swap = rapid.Bool().Draw(t, "swap")
+		a.Entry = rapid.IntRange(0, 1).Draw(t, "smuggle-owner-chain")
 	case "resign-entry":
 		a.Signer = rapid.SampledFrom([]string{"stranger", "earlier", "device"}).Draw(t, "signer")
 		a.Swap = rapid.Bool().Draw(t, "swap")
@@ -810,7 +821,7 @@ func TestC01(t *testing.T) {
 		return res
 	})
 
-	r.SetRule("attacks", "configuration × chain 1..3 × to1d/bypass × reuse/replace × one attack applied by a man-in-the-middle to the honest owner's traffic: (a) one structure-aware mutation anywhere in ProveOVHdr (COSE headers, payload, OVHeader, HMAC, counts, nonce, xA, hash) or in an OVNextEntry; (b) ProveOVHdr re-signed by stranger / manufacturer / earlier owner / device key / key of another kind, with and without swapping the advertised owner key; last entry re-signed (and re-pointed) by another key; (c) another device's voucher presented verbatim or re-signed by the genuine owner over this session's nonce and hash (only the header HMAC distinguishes), a voucher rooted in another manufacturer key carrying a correct HMAC computed with the device secret (only the key hash distinguishes), a ProveOVHdr replayed from an earlier session (the two sessions' HelloDevice nonces must differ); a last entry taken from another device's voucher, zero entries with a self-advertised key; (d) entries truncated / extended / swapped / mis-numbered / mis-counted; to1d mutated or re-signed; (e) wrong Message-Type, injected error, dropped response; (f) the device's HMAC objects behave like a hardware engine whose n-th computation fails (no digest, error via Err() until Reset), with an honest owner or with a colluding-manufacturer voucher whose header HMAC is empty. Oracle: an independent reference decides from the delivered bytes whether every listed condition holds; if not, TO2 must return an error and no credential, no device-module callback may happen and no type-64 request may be sent (leniently equivalent re-encodings excepted). Non-trivial: delivered attack that the reference rejects; distinct by descriptor.")
+	r.SetRule("attacks", "configuration × chain 1..3 × to1d/bypass × reuse/replace × one attack applied by a man-in-the-middle to the honest owner's traffic: (a) one structure-aware mutation anywhere in ProveOVHdr (COSE headers, payload, OVHeader, HMAC, counts, nonce, xA, hash) or in an OVNextEntry; (b) ProveOVHdr re-signed by stranger / manufacturer / earlier owner / device key / key of another kind, with and without swapping the advertised owner key (for X5CHAIN also advertising [signer certificate, genuine owner chain…]); last entry re-signed (and re-pointed) by another key; (c) another device's voucher presented verbatim or re-signed by the genuine owner over this session's nonce and hash (only the header HMAC distinguishes), a voucher rooted in another manufacturer key carrying a correct HMAC computed with the device secret (only the key hash distinguishes), a ProveOVHdr replayed from an earlier session (the two sessions' HelloDevice nonces must differ); a last entry taken from another device's voucher, zero entries with a self-advertised key; (d) entries truncated / extended / swapped / mis-numbered / mis-counted; to1d mutated or re-signed; (e) wrong Message-Type, injected error, dropped response; (f) the device's HMAC objects behave like a hardware engine whose n-th computation fails (no digest, error via Err() until Reset), with an honest owner or with a colluding-manufacturer voucher whose header HMAC is empty. Oracle: an independent reference decides from the delivered bytes whether every listed condition holds; if not, TO2 must return an error and no credential, no device-module callback may happen and no type-64 request may be sent (leniently equivalent re-encodings excepted). Non-trivial: delivered attack that the reference rejects; distinct by descriptor.")
 	ev.Rapid(r, "attacks", ev.N{Quick: 8000, Thorough: 200000}, genCase, evalCase)
 	ev.CheckWitness(r, "attacks", evalCase)
 }
